@@ -1,5 +1,6 @@
 import PqV.Drv.Proto
 import PqV.Impl.Footer
+import PqV.Impl.Append
 /- Drv.Footer — `footer.*` stream. -/
 namespace PqV.Drv
 open PqV.Impl.Footer
@@ -18,6 +19,7 @@ def handleFooter (op : String) (a : Args) : String :=
     let isMeta := a.nat "meta" != 0
     let r := rewrite (a.nat "trunc" != 0) isMeta f (a.bytes "nf")
     s!"ok out={toHex r} loc={footerLoc isMeta f}"
+  | "append" => s!"ok out={toHex (PqV.Impl.Append.appendSimple (a.bytes "file") (a.bytes "rgs") (a.bytes "nf"))}"
   | _ => s!"err unknown-op footer {op}"
 
 end PqV.Drv
